@@ -318,15 +318,19 @@ func (cln *CLNClient) OutgoingPaymentStatus(ctx context.Context, paymentHash str
 		return PaymentStatus{PaymentStatus: Failed}, OutgoingPaymentNotFound
 	}
 
-	payment := listPaysResponse.Pays[0]
-	switch payment.Status {
-	case "complete":
-		return PaymentStatus{PaymentStatus: Succeeded, Preimage: payment.PaymentPreimage}, nil
-	case "failed":
-		return PaymentStatus{PaymentStatus: Failed}, nil
-	default:
-		return PaymentStatus{PaymentStatus: Pending}, nil
+	// there can be several entries if the payment was attempted more than once.
+	// The payment only failed if all of the attempts failed
+	status := PaymentStatus{PaymentStatus: Failed}
+	for _, payment := range listPaysResponse.Pays {
+		switch payment.Status {
+		case "complete":
+			return PaymentStatus{PaymentStatus: Succeeded, Preimage: payment.PaymentPreimage}, nil
+		case "failed":
+		default:
+			status = PaymentStatus{PaymentStatus: Pending}
+		}
 	}
+	return status, nil
 }
 
 func (cln *CLNClient) FeeReserve(amount uint64) uint64 {
